@@ -1,4 +1,4 @@
-CONSTANTS SIZES = {2}  TMAX = 3  WMAX = 3  MAXE = 2  MAXW = 0  ITERS = 1  KEYS = {0}  BEFORE = TRUE
+CONSTANTS SIZES = {2}  TMAX = 3  WMAX = 3  MAXE = 2  MAXW = 0  ITERS = 1  KEYS = {0}  BEFORE = TRUE  FIX_F4 = TRUE
 SPECIFICATION Spec
 INVARIANTS C13_Lost
 CHECK_DEADLOCK FALSE
